@@ -420,8 +420,22 @@ class HashRules:
         fr.this = (('L', '$this', ()), ())
         st = interp.State()
         st.mem[fr.this] = P(OBJ, ())
+        # the length ranges over everything its parameter type can hold: 64 + m + 64k up to the largest value of the type
+        lbits = (prog.type(gs['params'][1]['t']) or {}).get('bits') or 32
+        lmax = (1 << min(lbits, 62)) - 1
         st.sym['m'] = (0, 1 << 30)
-        st.sym['k'] = (0, (1 << 24))
+        st.sym['k'] = (0, max(1 << 24, (lmax - 64 - (1 << 30)) // 64))
+
+        def undecided(msg):
+            # a conversion that cannot hold every length and then decides the loop is the reason, and a violation
+            if I.trunc_decisions:
+                d = I.trunc_decisions[0]
+                rec.ob('R07.e', key, False, d['decided_at'],
+                       'the message length (any value up to %d) is %s, range [%d, %d], converted to a %d-bit %s type at %s and the converted value decides %s: '
+                       'for the lengths beyond that type the blocks hashed are not the message' % (
+                           lmax, d['expr'], d['range'][0], d['range'][1], d['bits'], 'signed' if d['signed'] else 'unsigned', d['where'], d['decided_at']))
+            else:
+                rec.ob('R07.e', key, None, where, msg)
         length = L(64, {'m': 1, 'k': 64})
         for p, v in zip(gs['params'], [P(MSG, (0,)), length, P(OUTB, (0,))]):
             st.mem[fr.local(p['id'])] = v
@@ -433,7 +447,7 @@ class HashRules:
             if loop['k'] == 'ForStmt' and loop.get('init') is not None:
                 cur = I.exec(loop['init'], cur, fr).norm
             if len(cur) != 1:
-                rec.ob('R07.e', key, None, where, 'state before the block loop is not unique (%d)' % len(cur))
+                undecided('state before the block loop is not unique (%d)' % len(cur))
                 return
             head0 = cur[0]
 
@@ -455,7 +469,7 @@ class HashRules:
                 return after[0], list(ev)
             s1, calls0 = one_iteration(head0)
             if s1 is None:
-                rec.ob('R07.e', key, None, where, 'one symbolic iteration of the block loop is not a single path')
+                undecided('one symbolic iteration of the block loop is not a single path')
                 return
 
             def delta(v0, v1):
@@ -490,7 +504,7 @@ class HashRules:
                     continue
                 d = delta(v0, v1)
                 if d is None:
-                    rec.ob('R07.e', key, None, where, 'loop-carried local %s does not advance by a constant step (%s -> %s)' % (kk[0][1], show(v0), show(v1)))
+                    undecided('loop-carried local %s does not advance by a constant step (%s -> %s)' % (kk[0][1], show(v0), show(v1)))
                     return
                 deltas[kk] = d
             headk = head0.copy()
@@ -503,7 +517,7 @@ class HashRules:
             st2 = interp.State()
             st2.mem[fr.this] = P(OBJ, ())
             st2.sym['r'] = (0, 63)
-            st2.sym['k'] = (0, (1 << 24))
+            st2.sym['k'] = (0, max(1 << 24, (lmax - 63) // 64))
             for p, v in zip(gs['params'], [P(MSG, (0,)), L(0, {'r': 1, 'k': 64}), P(OUTB, (0,))]):
                 st2.mem[fr.local(p['id'])] = v
             cur = [st2]
@@ -538,6 +552,9 @@ class HashRules:
         rec.ob('R07.e', 'R07.e@%s::string-driver-exit-step' % fkey(gs), exit_ok, nloc(loop),
                'for every k and r < 64, length 64k+r: the loop ends after k iterations and the finaliser gets exactly r bytes at offset 64k, then the result is read (%s)' % (
                    'yes' if exit_ok else 'NO: ' + exit_det))
+        if I.trunc_decisions:
+            undecided('')
+            return
         ok = sk1 is not None and callsk is not None and len(callsk) == 1 and callsk[0] == (P(MSG, (L(0, {'k': 64}),)),)
         det = ''
         if ok:
@@ -605,12 +622,15 @@ def buffer_rules(self):
             out.append((s, got))
         return out
 
+    LASTI = [None]
+
     class Cp:
         def on_memcpy(self, I, st, node, dst, src, size):
             st.comps['copies'] = st.comps.get('copies', ()) + ((dst, src, size),)
 
     def run(fn, st, args):
         I = interp.Interp(prog, listeners=[Cp()], models=dict(models.STD_MODELS))
+        LASTI[0] = I
         I.fread_override = fread_part
         I.concrete_loops = True
         st.comps.setdefault('copies', ())
@@ -651,6 +671,13 @@ def buffer_rules(self):
             if with_pfx:
                 good = good and all(s.mem.get((FB, (F['extra_entry'], i))) == sym('x%d' % i) for i in range(64))
             okc = okc and good
+        lost = [w for w in LASTI[0].const_wraps if w[1] in (ctor['q'], rd['q'])] if not okc else []
+        for wh_, fn_, val_, got_, bits_, sg_ in lost:
+            rec.ob('R07.e', 'R07.e@%s::buffer-constructor' % fkey(ctor), False, wh_,
+                   'a completely filled buffer (%d bytes read, %d units): the value %d is stored through an implicit conversion to a %d-bit %s type and becomes %s' % (
+                       cap, H, val_, bits_, 'signed' if sg_ else 'unsigned', got_))
+        if lost:
+            return
         if not okc:
             # not the representation this rule knows: decline rather than misjudge
             raise AnalysisBroken('file buffer constructor does not establish (now=0, 64*total+tail=bytes read into b, prefix copy): '
